@@ -586,6 +586,23 @@ func (e *Env) call(n *ECall) TVal {
 			panic(genErr("old takes one argument"))
 		}
 		return e.inOld().evalLazy(n.Args[0])
+	case "freshloop": // allocated since the loop (whose invariant this is) was entered
+		if e.loop == nil || e.loop.pre == nil {
+			panic(genErr("freshloop() outside a loop invariant"))
+		}
+		v := e.eval(n.Args[0])
+		r := v.term
+		if v.ty.sort == "Slice" {
+			r = app("s-arr", r)
+		}
+		return TVal{term: app(">=", app("rid", r), e.loop.pre.next), ty: boolTy()}
+	case "atloop": // value of the expression when the loop whose invariant this is was entered
+		if e.loop == nil || e.loop.pre == nil {
+			panic(genErr("atloop() outside a loop invariant"))
+		}
+		ne := *e
+		ne.cur, ne.hst = e.loop.pre, e.loop.pre
+		return ne.evalLazy(n.Args[0])
 	case "len":
 		v := e.eval(n.Args[0])
 		switch {
@@ -796,6 +813,9 @@ func exprString(x Expr) string {
 	case *EIndex:
 		return exprString(n.X) + "[" + exprString(n.I) + "]"
 	case *EStar:
+		if n.All {
+			return exprString(n.X) + "[**]"
+		}
 		return exprString(n.X) + "[*]"
 	case *ECall:
 		var as []string
